@@ -476,6 +476,26 @@ pub fn expr_alts() -> Vec<EAlt> {
     v.push(atom("atom.selfdestruct_empty", |_| call(var("selfdestruct"), vec![])));
     v.push(atom("atom.unicode_transfer", |_| call(member(var("émetteur"), "transfer"), vec![var("ü")])));
     v.push(atom("atom.unicode_postinc", |_| nodep("PostIncrement", 0, vec![C(var("zähler")), T("++")])));
+    v.push(atom("atom.two_lengths", |_| {
+        bin(
+            "And",
+            "&&",
+            12,
+            12,
+            11,
+            bin("Less", "<", 10, 10, 9, var("i"), member(var("arr"), "length")),
+            bin("Less", "<", 10, 10, 9, var("i"), member(var("brr"), "length")),
+        )
+    }));
+    v.push(atom("atom.transferFrom_value", |_| member(var("t"), "transferFrom")));
+    v.push(atom("atom.transfer_with_options", |_| {
+        let cb = nodep(
+            "FunctionCallBlock",
+            0,
+            vec![C(member(var("t"), "transfer")), C(node("Args", vec![T("{"), T("gas"), T(":"), C(var("g")), T("}")]))],
+        );
+        nodep("FunctionCall", 0, vec![C(cb), T("("), C(var("u")), T(","), C(var("w")), T(")")])
+    }));
     v.push(atom("atom.x_add_empty", |_| call(member(var("p"), "add"), vec![])));
     v
 }
